@@ -516,7 +516,7 @@ func workerFresh(w *core.Worker, gs []*gram) {
 		} else {
 			r.Diff = compare(o, ref)
 		}
-		if g.Shipped {
+		if g.Shipped && mode != "rand" { // a sampled order must not produce keys of the deterministic oracle
 			r.Committed = compareCommitted(g, o)
 			r.Compared = len(o.Names)
 		}
@@ -760,6 +760,9 @@ func workerOrder(w *core.Worker, gs []*gram) {
 				fn, pos := seamSite()
 				sum.Runs++
 				sum.Choices++
+				if sum.Site == "" && fn != "" {
+					sum.K, sum.Off, sum.Site, sum.SitePos, sum.Note = []int64{k}, []offset{off}, fn, pos, fmt.Sprintf("%d entries", shape.Used)
+				}
 				if o.digest() != b.digest {
 					w.Emit(rec{Phase: "order", G: gi, K: []int64{k}, Off: []offset{off}, Diff: compare(o, b.out), Site: fn, SitePos: pos,
 						Note: fmt.Sprintf("a map with %d entries (table-backed=%v)", shape.Used, shape.Large)})
@@ -774,7 +777,9 @@ func workerOrder(w *core.Worker, gs []*gram) {
 }
 
 // pairs: case (grammar, k1): for every k2 > k1 and every pair of (quick-selection) offsets, one
-// generation in which exactly these two iterations deviate.
+// generation in which exactly these two iterations deviate. Combinations in which one of the two
+// deviations alone already changes the output are skipped (they belong to the single-deviation
+// finding), so a record of this phase is a dependence that needs BOTH deviations.
 // args: pairs <refdir> <gis> <ns> <deadline unix>
 func workerPairs(w *core.Worker, gs []*gram) {
 	plan := parsePlan(w.Args[2], w.Args[3])
@@ -782,6 +787,8 @@ func workerPairs(w *core.Worker, gs []*gram) {
 	for pi, gi := range plan.gis {
 		g := gs[gi]
 		var b *baseline
+		var offs [][]offset
+		var bad [][]bool // bad[k][i]: deviation offs[k][i] alone changes the output
 		sum := rec{Phase: "pairs-sum", G: gi}
 		for k1 := int64(0); k1 < plan.ns[pi]; k1++ {
 			idx := plan.start[pi] + int(k1)
@@ -799,16 +806,35 @@ func workerPairs(w *core.Worker, gs []*gram) {
 				if b.n != plan.ns[pi] {
 					sum.Unstable = fmt.Sprintf("%s: %d map iterations in this process, %d in the measuring process", g.Name, b.n, plan.ns[pi])
 				}
+				for k := range b.shapes {
+					o, _ := offsets(b.shapes[k], false)
+					offs = append(offs, o)
+					flags := make([]bool, len(o))
+					for i, off := range o {
+						seamPassthrough(false)
+						seamReset()
+						seamSet(0, int64(k), off.E, off.D)
+						out := generate(g)
+						seamReset()
+						sum.Gens++
+						flags[i] = out.digest() != b.digest
+					}
+					bad = append(bad, flags)
+				}
 			}
 			if k1 >= int64(len(b.shapes)) {
 				continue
 			}
-			offs1, _ := offsets(b.shapes[k1], false)
 			found := false
 			for k2 := k1 + 1; k2 < int64(len(b.shapes)) && !found; k2++ {
-				offs2, _ := offsets(b.shapes[k2], false)
-				for _, o1 := range offs1 {
-					for _, o2 := range offs2 {
+				for i1, o1 := range offs[k1] {
+					if bad[k1][i1] {
+						continue
+					}
+					for i2, o2 := range offs[k2] {
+						if bad[k2][i2] {
+							continue
+						}
 						seamPassthrough(false)
 						seamReset()
 						seamSet(0, k1, o1.E, o1.D)
@@ -818,9 +844,11 @@ func workerPairs(w *core.Worker, gs []*gram) {
 						fn, pos := seamSite()
 						sum.Runs++
 						sum.Choices++
-						if !found && o.digest() != b.digest {
+						if o.digest() != b.digest {
 							found = true
-							w.Emit(rec{Phase: "pairs", G: gi, K: []int64{k1, k2}, Off: []offset{o1, o2}, Diff: compare(o, b.out), Site: fn, SitePos: pos, Note: "two maps"})
+							w.Emit(rec{Phase: "pairs", G: gi, K: []int64{k1, k2}, Off: []offset{o1, o2}, Diff: compare(o, b.out), Site: fn, SitePos: pos,
+								Note: "two maps (neither deviation alone changes the output)"})
+							break
 						}
 					}
 					if found {
@@ -1134,7 +1162,13 @@ func run(c *core.Ctx) {
 	if !c.Quick() {
 		maxLen = 3
 	}
-	c.Set("histories_per_setting", len(historyList(gs, maxLen)))
+	hl := historyList(gs, maxLen)
+	for _, i := range []int{len(gs) + 1, len(hl) - 1} {
+		if i >= 0 && i < len(hl) {
+			c.Sample(map[string]any{"kind": "history", "generations_in_one_process": histNames(gs, hl[i])})
+		}
+	}
+	c.Set("histories_per_setting", len(hl))
 	c.Set("history_max_len", maxLen)
 	hp := &histPhase{a: a, refdir: refdir, byKey: map[string][]rec{}}
 	if c.Quick() {
@@ -1260,7 +1294,7 @@ func (a *agg) freshPhase(refdir string, ctl bool) {
 				} else {
 					c.Outcome("fresh:identical", 1)
 				}
-				if g.Shipped {
+				if g.Shipped && j.mode != "rand" {
 					a.committed(g, &r)
 				}
 			},
@@ -1422,6 +1456,9 @@ func (a *agg) orderRecord(raw json.RawMessage, progress map[int]*rec) {
 			p.SmallK += r.SmallK
 			p.LargeK += r.LargeK
 			c.Add("order_deviation_generations", r.Runs)
+			if r.Site != "" && c.SampleCount() < 6 {
+				c.Sample(map[string]any{"kind": "map-order deviation", "grammar": g.Name, "k": r.K, "offset": r.Off, "map": r.Note, "iteration_started_in": r.Site + " (" + r.SitePos + ")", "result": "output identical to run 0 unless a violation says otherwise"})
+			}
 			c.Outcome("order:single-group-map-iteration-explored", r.SmallK)
 			c.Outcome("order:table-backed-map-iteration-explored", r.LargeK)
 			c.Outcome("order:singleton-map-iteration(one order only)", r.Trivial)
@@ -1453,6 +1490,9 @@ func (a *agg) orderRecord(raw json.RawMessage, progress map[int]*rec) {
 			site = g.Name + ":" + r.Diff.File
 		} else {
 			where = fmt.Sprintf(" (the `for range` in %s, %s)", r.Site, r.SitePos)
+		}
+		if len(r.K) > 1 {
+			site = "pair:" + site // needs two simultaneous deviations; the site is that of the later one
 		}
 		what := fmt.Sprintf("output of %s depends on Go's map iteration order: starting map iteration #%v of the generation%s over %s at entry offset %v instead of 0 changes %s",
 			g.Name, r.K, where, r.Note, rc.E, r.Diff)
